@@ -24,32 +24,33 @@ type CheckRun struct {
 	Prop, Tier, Repo, Verif, Only string
 	Workers                       int
 	NoReplay, Verbose             bool
+	Solver, Arith                 string
 
-	overlay  map[string][]byte
-	pkgDirs  []string
-	prog     *ssa.Program
-	pkgs     []*ssa.Package
-	loadTime time.Duration
-	results  []*HarnessResult
+	overlay    map[string][]byte
+	pkgDirs    []string
+	prog       *ssa.Program
+	pkgs       []*ssa.Package
+	loadTime   time.Duration
+	results    []*HarnessResult
 	nativeTime time.Duration
-	started  time.Time
-	origPath string
+	started    time.Time
+	origPath   string
 }
 
 type HarnessResult struct {
-	Name     string
-	Pkg      string
-	PkgDir   string
-	Cfg      Cfg
-	Ex       *Explorer
-	Wall     time.Duration
-	Expect   []string // reach tags that must be hit
-	Known    []string
-	Replays  []ReplayOutcome
-	Validated int
+	Name               string
+	Pkg                string
+	PkgDir             string
+	Cfg                Cfg
+	Ex                 *Explorer
+	Wall               time.Duration
+	Expect             []string // reach tags that must be hit
+	Known              []string
+	Replays            []ReplayOutcome
+	Validated          int
 	ValidationMismatch []string
-	Notes    []string
-	NoNative bool
+	Notes              []string
+	NoNative           bool
 }
 
 var pkgClauseRe = regexp.MustCompile(`(?m)^package\s+(\w+)`)
@@ -130,6 +131,12 @@ var directiveRe = regexp.MustCompile(`^//vf:(\w+)\s*(.*)$`)
 func (r *CheckRun) harnessCfg(fn *ssa.Function) (Cfg, []string, []string) {
 	cfg := defaultCfg()
 	cfg.Workers = r.Workers
+	if r.Solver != "" {
+		cfg.Solver = r.Solver
+	}
+	if r.Arith != "" {
+		cfg.Arith = r.Arith
+	}
 	var expect, notes []string
 	decl, ok := fn.Syntax().(*ast.FuncDecl)
 	if !ok || decl.Doc == nil {
@@ -143,6 +150,8 @@ func (r *CheckRun) harnessCfg(fn *ssa.Function) (Cfg, []string, []string) {
 			}
 			n, _ := strconv.Atoi(v)
 			switch k {
+			case "arith":
+				cfg.Arith = v
 			case "unwind":
 				cfg.Unwind = n
 			case "decisions":
@@ -512,18 +521,18 @@ func (r *CheckRun) finish() int {
 
 func (r *CheckRun) writeEvidence(violations, code int) error {
 	type hsum struct {
-		Harness   string         `json:"harness"`
-		Package   string         `json:"package"`
-		Paths     int            `json:"paths"`
-		Outcomes  map[string]int `json:"outcomes"`
+		Harness   string                    `json:"harness"`
+		Package   string                    `json:"package"`
+		Paths     int                       `json:"paths"`
+		Outcomes  map[string]int            `json:"outcomes"`
 		Asserts   map[string]map[string]int `json:"assertion_queries"`
-		Reached   map[string]int `json:"reached"`
-		Bounds    map[string]int `json:"bounds"`
-		Queries   int            `json:"queries"`
-		SolverS   float64        `json:"solver_s"`
-		WallS     float64        `json:"wall_s"`
-		Validated int            `json:"paths_validated_natively"`
-		Notes     []string       `json:"notes,omitempty"`
+		Reached   map[string]int            `json:"reached"`
+		Bounds    map[string]int            `json:"bounds"`
+		Queries   int                       `json:"queries"`
+		SolverS   float64                   `json:"solver_s"`
+		WallS     float64                   `json:"wall_s"`
+		Validated int                       `json:"paths_validated_natively"`
+		Notes     []string                  `json:"notes,omitempty"`
 	}
 	var hs []hsum
 	states, trans, validated, queries := 0, 0, 0, 0
